@@ -260,7 +260,9 @@ impl EventGen for GroupElement {
             events.push(OutputEvent::Start(new_el));
 
             if let Some(inner_events) = self.0.inner_events(context) {
-                let (ev_list, bb) = process_events(inner_events, context)?;
+                let (ev_list, bb) = process_events(inner_events, context).inspect_err(|_| {
+                    context.pop_element();
+                })?;
                 content_bb = bb;
                 events.extend(&ev_list);
             }
@@ -342,8 +344,9 @@ impl EventGen for SpecsElement {
         }
         if let Some(inner_events) = self.0.inner_events(context) {
             context.in_specs = true;
-            process_events(inner_events, context)?;
+            let res = process_events(inner_events, context);
             context.in_specs = false;
+            res?;
         }
         Ok((OutputList::new(), None))
     }
